@@ -307,10 +307,7 @@ func c02TableBody(c *mc.Ctx) {
 
 func c02Scenarios(tier mc.Tier) []mc.Scenario {
 	var out []mc.Scenario
-	schemes := []string{envenc.SchemeX509}
-	if tier == mc.Thorough {
-		schemes = append(schemes, envenc.SchemeSA)
-	}
+	schemes := []string{envenc.SchemeX509, envenc.SchemeSA}
 	for _, m := range []string{envenc.MediaJWS, envenc.MediaCOSE} {
 		m := m
 		for _, sch := range schemes {
